@@ -54,8 +54,9 @@ type Scenario struct {
 
 // Planted is a single bad token put on a known line of a known file.
 type Planted struct {
-	File string `json:"file"`
-	Line int    `json:"line"`
+	File   string `json:"file"`
+	Line   int    `json:"line"`
+	Marker string `json:"marker,omitempty"` // the impossible token by which the error is recognised ("999.1.1.1" when empty)
 }
 
 var records = []string{
@@ -79,6 +80,20 @@ var soa = []string{
 }
 
 const plantedLine = "bad 300 IN A 999.1.1.1"
+
+// plantedLines: single-line records with one impossible token each (the token is the marker by
+// which the error is recognised), in the RDATA of record types whose parsers build their errors in
+// different ways.
+var plantedLines = []struct{ line, marker string }{
+	{plantedLine, "999.1.1.1"},
+	{plantedLine, "999.1.1.1"},
+	{"bad 300 IN SVCB 9x9x svc.example.org. alpn=h2", "9x9x"},
+	{"bad 300 IN HTTPS 1 . port=9x9x", "9x9x"},
+	{"bad 300 IN NID 10 9x9x:4fff:ff20:ee64", "9x9x"},
+	{"bad 300 IN L64 10 9x9x:0DB8:1140:1000", "9x9x"},
+	{"bad 300 IN MX 9x9x mail", "9x9x"},
+	{"bad 300 IN AAAA 9x9x::1", "9x9x"},
+}
 
 func genLines(r interface{ IntN(int) int }, n int, includes []string, damage bool, tier string) []string {
 	var out []string
@@ -253,8 +268,9 @@ func Gen(seed uint64, tier string) any {
 			for at > 0 && at < len(f.Lines) && inParens(f.Lines[:at]) {
 				at++
 			}
-			f.Lines = append(f.Lines[:at], append([]string{plantedLine}, f.Lines[at:]...)...)
-			sc.Planted = &Planted{File: f.Name, Line: at + 1}
+			pl := plantedLines[r.IntN(len(plantedLines))]
+			f.Lines = append(f.Lines[:at], append([]string{pl.line}, f.Lines[at:]...)...)
+			sc.Planted = &Planted{File: f.Name, Line: at + 1, Marker: pl.marker}
 		}
 	}
 	if sc.Kind == "zone" && core.Chance(r, 3) {
@@ -277,6 +293,7 @@ func Gen(seed uint64, tier string) any {
 			default:
 				ft.At = r.IntN(size + 1)
 			}
+			ft.Wrap = core.Chance(r, 20)
 			if core.Chance(r, 25) {
 				// a transient error: the read fails once, a retry would have succeeded
 				ft.Once = true
@@ -370,6 +387,11 @@ func privKeyLines(r interface{ IntN(int) int }) []string {
 	}
 	if r.IntN(3) == 0 {
 		base = append(base, "Created: 20110302104537", "Publish: 20110302104537", "Activate: 20110302104537")
+	}
+	if r.IntN(4) == 0 {
+		// key material of the wrong length for its algorithm (1, 16, 31, 33 and 64 octets; none at all)
+		base[2] = "PrivateKey: " + []string{"AQ==", "AAECAwQFBgcICQoLDA0ODw==", "AAECAwQFBgcICQoLDA0ODxAREhMUFRYXGBkaGxwdHg==", "AAECAwQFBgcICQoLDA0ODxAREhMUFRYXGBkaGxwdHh8g",
+			"AAECAwQFBgcICQoLDA0ODxAREhMUFRYXGBkaGxwdHh8gISIjJCUmJygpKissLS4vMDEyMzQ1Njc4OTo7PD0+Pw==", ""}[r.IntN(6)]
 	}
 	if r.IntN(4) == 0 {
 		base[r.IntN(len(base))] = []string{"garbage", "Algorithm: 99", "PrivateKey: !!!notbase64", "Private-key-format: v9.9", "NoColonHere", strings.Repeat("K", 3000) + ": v"}[r.IntN(6)]
@@ -544,7 +566,7 @@ func parse(sc *Scenario, faults []simfs.Fault, short int) (o *outcome) {
 func hardFaults(f *simfs.FS) int {
 	n := 0
 	for k, v := range f.Fired {
-		if k != "short_read" && k != "open_missing" {
+		if k != "short_read" && k != "open_missing" && k != "read_error_wrapping_eof" {
 			n += v
 		}
 	}
@@ -706,11 +728,15 @@ func runZone(sc *Scenario, res *core.Result, logf func(string, ...any)) {
 			return
 		}
 	}
+	marker := "999.1.1.1"
+	if sc.Planted != nil && sc.Planted.Marker != "" {
+		marker = sc.Planted.Marker
+	}
 	if sc.Planted != nil {
 		res.Bump("oracle.P8_error_position")
 		want := fmt.Sprintf("line: %d:", sc.Planted.Line)
 		reached := sc.Planted.File == sc.Files[0].Name || ref.fs.OpenCount[sc.Planted.File] > 0
-		if reached && errClass(ref.err) == "syntax" && strings.Contains(ref.err, "999.1.1.1") {
+		if reached && errClass(ref.err) == "syntax" && strings.Contains(ref.err, marker) {
 			if !strings.HasPrefix(ref.err, sc.Planted.File+": ") || !strings.Contains(ref.err, want) {
 				res.Fail("P8", "error-position", "bad token planted at %s line %d, error says: %s", sc.Planted.File, sc.Planted.Line, ref.err)
 				return
@@ -720,7 +746,7 @@ func runZone(sc *Scenario, res *core.Result, logf func(string, ...any)) {
 			return
 		}
 	}
-	if sc.Planted != nil && sc.Planted.File == sc.Files[0].Name && strings.Contains(ref.err, "999.1.1.1") {
+	if sc.Planted != nil && sc.Planted.File == sc.Files[0].Name && strings.Contains(ref.err, marker) {
 		// nothing is returned after the first problem, nothing before it is lost:
 		// the records equal those of the same file cut just before the bad line
 		cut := *sc
@@ -816,7 +842,7 @@ func faultyRun(sc *Scenario, res *core.Result, ref *outcome, logf func(string, .
 	fired := 0
 	for k, v := range run.fs.Fired {
 		res.Add("fault."+k, v)
-		if k != "short_read" && k != "open_missing" {
+		if k != "short_read" && k != "open_missing" && k != "read_error_wrapping_eof" {
 			fired += v
 		}
 	}
